@@ -13,6 +13,6 @@ git apply "$d/patch.diff" || { echo "NOT-CONFIRMED patch does not apply"; exit 1
 go build ./... || { echo "NOT-CONFIRMED build fails"; exit 1; }
 go test -count=1 ./... >/tmp/confirm-tests.log 2>&1 || { echo "NOT-CONFIRMED existing tests fail with patch"; exit 1; }
 cp "$d"/demo*_test.go $pkg/zz_demo_test.go
-if go test -count=1 $pkg/ >/tmp/confirm-demo1.log 2>&1; then echo "NOT-CONFIRMED demo passes with patch"; exit 1; fi
+if timeout 300 go test -count=1 $pkg/ >/tmp/confirm-demo1.log 2>&1; then echo "NOT-CONFIRMED demo passes with patch"; exit 1; fi
 git checkout -q -- .
-if go test -count=1 $pkg/ >/tmp/confirm-demo2.log 2>&1; then echo "CONFIRMED $d"; else echo "NOT-CONFIRMED demo fails without patch"; tail -5 /tmp/confirm-demo2.log; exit 1; fi
+if timeout 300 go test -count=1 $pkg/ >/tmp/confirm-demo2.log 2>&1; then echo "CONFIRMED $d"; else echo "NOT-CONFIRMED demo fails without patch"; tail -5 /tmp/confirm-demo2.log; exit 1; fi
